@@ -69,6 +69,9 @@ type Exec struct {
 	deadline       time.Time
 	domPrunes      int
 	preemptBound int
+	hbOn         bool
+	hbRaces      map[string]*hbRace
+	hbFnCache    map[*ssa.Function]bool
 	jointDecisions int
 	modelHits      int
 	queriesBr      int
